@@ -129,6 +129,9 @@ def status(T, x, side='wire'):
         return 'R', 'nonbool-for-bool'
     if k == 'enum':
         codes = set(T['members'].values())
+        if isinstance(x, dict) and '$foreign_member' in x:
+            # (driver side) a member object of an other enumeration: counts by its code, if at all
+            return ('E', 'foreign-member') if x['$foreign_member'][1] in codes else ('R', 'nonmember')
         if isinstance(x, bool):
             return ('E', 'bool-as-number') if int(x) in codes else ('R', 'nonmember')
         if isinstance(x, int):
@@ -314,6 +317,8 @@ def denotes(T, x, prev, r, side='wire', top=True):
         _, code, name = r
         if T['members'].get(name) != code:
             bad.append(('sound', 'nonmember'))
+        if isinstance(x, dict) and '$foreign_member' in x:
+            x = x['$foreign_member'][1]
         if isinstance(x, str):
             if T['members'].get(x) != code:
                 bad.append(('fidelity', 'enum-changed'))
